@@ -59,6 +59,9 @@ let show_state (s : sys) (rfull : bool) (nodq : bool) =
 
 let () =
   let st : (sys * sp) option ref = ref None in
+  (* timed scenarios: the deadline queue with its clock (times in ms since the scenario's epoch) *)
+  let tst : tdq option ref = ref None in
+  let show_idx l = "r:" ^ String.concat "," (List.map (fun i -> soi (int_of_n i)) l) in
   let layout = ref [||] and nballast = ref 0 in
   let inits = Hashtbl.create 8 in
   let case_no = ref 0 and op_no = ref 0 and ops_total = ref 0 in
@@ -92,6 +95,40 @@ let () =
       let line = input_line stdin in
       let toks = List.filter (fun s -> s <> "") (String.split_on_char ' ' line) in
       match toks with
+      | "N" :: what :: _ -> bump extra what
+      | "C" :: "timed" :: variant :: scen :: _ ->
+        flush_case (); incr case_no; op_no := 0; dead := false; st := None;
+        Buffer.add_string cur_case ("timed " ^ scen ^ "|");
+        ignore variant;
+        tst := Some (tdq_new N0)
+      | "O" :: (("ta" | "tp") as name) :: rest ->
+        incr op_no; incr ops_total; bump opcount name;
+        let rec split acc = function "=" :: r -> (List.rev acc, r) | x :: r -> split (x :: acc) r | [] -> (List.rev acc, []) in
+        let (args, obs) = split [] rest in
+        let impl = match obs with o :: _ -> o | [] -> "?" in
+        Buffer.add_string cur_case (name ^ ";");
+        let an k = n_of_int (int_of_string (List.nth args k)) in
+        (match !tst with
+         | None -> failwith "timed op before timed case"
+         | Some q ->
+           if name = "ta" then tst := Some (t_add q (an 0) (an 1))
+           else begin
+             let q1 = t_peek q (an 0) in
+             let (q2, rep) = t_report q1 (an 1) in
+             let om = show_idx rep and os = show_idx (t_spec_missed q1 (an 1)) in
+             if rep <> [] then cur_nontrivial := true;
+             bump extra "timed_process_calls";
+             (* model and oracle are proved equal (c20_timed_oracle_is_code): when both disagree with the
+                implementation in the same way only the property failure (kind=spec) is reported *)
+             if not !dead && om <> impl && (om <> os || os = impl) then begin
+               incr mm_model;
+               Printf.printf "MISMATCH case=%d op=%d kind=model line=[%s] model=%s impl=%s\n" !case_no !op_no line om impl end;
+             if not !dead && os <> impl then begin
+               incr mm_spec;
+               Printf.printf "MISMATCH case=%d op=%d kind=spec line=[%s] spec=%s impl=%s\n" !case_no !op_no line os impl end;
+             (* the real previous_iteration is what the code wrote; the model continues with its own *)
+             tst := Some q2
+           end)
       | "C" :: variant :: rest ->
         flush_case (); incr case_no; op_no := 0; dead := false;
         let get k = try List.assoc k (List.map kv rest) with Not_found -> failwith ("header lacks " ^ k) in
